@@ -477,6 +477,15 @@ func firstEditOff(cs *caseSpec) int {
 
 // eval runs one case and applies the oracle. It returns the outcome class.
 func (k *checker) eval(cs *caseSpec) string {
+	res := k.evalCase(cs)
+	// A fixed, seed-independent choice of cases is written out as samples.
+	if cs.Group == "mutation" && cs.Input == "quote" && cs.Kind == "bitflip" && cs.Index == 1000 {
+		k.r.Sample(map[string]any{"case": cs, "outcome": res})
+	}
+	return res
+}
+
+func (k *checker) evalCase(cs *caseSpec) string {
 	r := k.r
 	v := k.c.vectors[cs.Vector]
 	in, ok, changed := k.c.build(cs)
